@@ -11,10 +11,17 @@
 (*  Block hh proot gs outs want_mroot want_belt want_b                                *)
 (*        got_dagger got_ser got_mroot got_belt got_b got_p got_hist   (fn)           *)
 (*        got_dagger got_belt got_hist                                 (stf)          *)
-(*  prior_mut (the PRIOR history was modified in place) is informational (C26).       *)
+(*  Sibling (same fields + prior): the same prior OBJECTS used again, for a sibling   *)
+(*        block with the same parent state root and for the first block once more     *)
+(*  prior_mut (the PRIOR history was modified in place) and old_changed (a window     *)
+(*  returned earlier differs now) are informational (C26): on the unchanged tree the  *)
+(*  dagger step writes the parent state root into the prior window's newest entry.    *)
+(*  old_struct (an earlier window differs beyond its newest entry's state root) must  *)
+(*  be 0.                                                                             *)
 EXTENDS Bytes, SequencesExt, Json, TLC
 CONSTANTS TraceFile, ResultFile, KnownDeviations
-VARIABLES hist, belt, l
+VARIABLES hist, belt, l,
+          phist, pbelt      \* the state before the last Block (the logical prior of its siblings)
 H == 8
 Zero32 == Zeros(32)
 
@@ -29,11 +36,13 @@ e == Trace[l]
 Is(name) == l <= Len(Trace) /\ e.ev = name /\ l' = l + 1
 Distinct(ps) == \A i \in 1..Len(ps), j \in 1..Len(ps) : i # j => ps[i].hash # ps[j].hash
 
-TReset == Is("Reset") /\ hist' = e.hist /\ belt' = e.belt
-TBlock ==
-  /\ Is("Block") /\ e.panic = "" /\ e.err = ""
+TReset == Is("Reset") /\ hist' = e.hist /\ belt' = e.belt /\ phist' = e.hist /\ pbelt' = e.belt
+\* what one transition from the window h must produce
+StepOk(h) ==
+  /\ e.panic = "" /\ e.err = ""
   /\ Distinct(e.gs)
-  /\ e.got_dagger = Dagger(hist, e.proot)
+  /\ e.old_struct = 0            \* no window returned earlier was rewritten (beyond the newest entry's state root)
+  /\ e.got_dagger = Dagger(h, e.proot)
   /\ e.got_belt = e.want_belt
   /\ (e.api = "fn" =>
         /\ e.got_ser = [i \in 1..Len(e.outs) |-> e.outs[i].s \o e.outs[i].h]
@@ -41,11 +50,17 @@ TBlock ==
         /\ e.got_b = e.want_b
         /\ e.got_p = SortByHash(e.gs))
   /\ Len(e.got_hist) <= H
-  /\ e.got_hist = HistNext(hist, e.hh, e.proot, e.gs, e.want_b)
-  /\ hist' = e.got_hist /\ belt' = e.got_belt
+  /\ e.got_hist = HistNext(h, e.hh, e.proot, e.gs, e.want_b)
+TBlock == /\ Is("Block") /\ StepOk(hist)
+          /\ phist' = hist /\ pbelt' = belt
+          /\ hist' = e.got_hist /\ belt' = e.got_belt
+\* a second / third transition from the SAME prior objects (sibling block on the same parent, then the first
+\* block again): judged against the logical prior, i.e. the value the prior had before the first transition
+TSibling == /\ Is("Sibling") /\ e.prior = phist /\ StepOk(phist)
+            /\ UNCHANGED <<hist, belt, phist, pbelt>>
 
-TraceInit == l = 1 /\ hist = <<>> /\ belt = <<>>
-TraceNext == TReset \/ TBlock
-TraceSpec == TraceInit /\ [][TraceNext]_<<hist, belt, l>>
+TraceInit == l = 1 /\ hist = <<>> /\ belt = <<>> /\ phist = <<>> /\ pbelt = <<>>
+TraceNext == TReset \/ TBlock \/ TSibling
+TraceSpec == TraceInit /\ [][TraceNext]_<<hist, belt, l, phist, pbelt>>
 Report == (l = Len(Trace) + 1) => JsonSerialize(ResultFile, [n |-> l - 1, devs |-> <<>>, bad |-> <<>>])
 =============================================================================
